@@ -149,6 +149,18 @@ def selected_runs(run, cases, rng, tier):
             d = S.describe_case(c["sg"], c["data"], opts, o)
             d["what"] = "validating selected shapes of a %s shapes graph ends in %s instead of a verdict or a documented failure" % (c["kind"], o[1][4:])
             fails.append(d)
+        if c["kind"] == "chain":
+            # the root of a chain is the only shape with targets, and they are explicit IRIs: selecting exactly it, with exactly them, is the
+            # same validation - the same depth limit applies (a verdict below it, 'too deep' at or beyond it)
+            root = c["shapes"][0]
+            sel = dict(c["opts"], use_shapes=[str(root["id"])], focus_nodes=[str(x) for x in root["targets"]["nodes"]])
+            plain_o = run(c["data"], c["sg"], **c["opts"])
+            sel_o = run(c["data"], c["sg"], **sel)
+            stats["selected_equals_plain_cases"] = stats.get("selected_equals_plain_cases", 0) + 1
+            if sel_o[:2] != plain_o[:2] or (plain_o[0] == "ok" and EC.keys(sel_o) != EC.keys(plain_o)):
+                d = S.describe_case(c["sg"], c["data"], sel, sel_o)
+                d["what"] = "a chain validated through use_shapes=[root] and focus_nodes=[the root's targets] (max_validation_depth=%s) ends otherwise than the same chain validated through its target declarations: %r versus %r" % (c["opts"].get("max_validation_depth"), sel_o[:2], plain_o[:2])
+                fails.append(d)
     return stats, fails, []
 
 
